@@ -167,14 +167,21 @@ pub fn history(ctx: &mut Ctx, p: &HistParams, first: usize, acc: &mut Acc) -> Hi
                             return (c19, wit); // an aborted commit/cancel: whether a clean-up follows is not specified
                         }
                         wit.push("w_idle_cleanups");
-                        let mut want: Vec<(&str, vcore::codec::Val)> = vec![("PartialReversal", expect_pending_query(table))];
+                        // (request kind, the receipt number it must carry)
+                        let mut want: Vec<(&str, Option<u64>)> = vec![("PartialReversal", Some(0xffff))];
                         if let Some(Some(d)) = reported {
-                            want.push(("PreAuthReversal", expect_preauth_reversal(table, &cfg, d as u64)));
+                            want.push(("PreAuthReversal", Some(d as u64)));
                             wit.push("w_dangling_reversed");
                         }
-                        want.push(("EndOfDay", expect_end_of_day(&cfg)));
-                        let got: Vec<(String, Option<vcore::codec::Val>)> = rest.iter().map(|r| (r.key.clone(), r.val.clone())).collect();
-                        let same = got.len() == want.len() && got.iter().zip(&want).all(|((k, v), (wk, wv))| k == wk && v.as_ref() == Some(wv));
+                        want.push(("EndOfDay", None));
+                        let same = rest.len() == want.len()
+                            && rest.iter().zip(&want).all(|(r, (wk, wr))| {
+                                r.key == *wk
+                                    && match wr {
+                                        Some(n) => get_path(table, wk, &r.val, "receipt_no") == Some(vcore::codec::Val::Int(*n)),
+                                        None => true,
+                                    }
+                            });
                         if !same {
                             c19.push(format!(
                                 "no transaction is left open: expected the pending query{}, then end-of-day and nothing else, got [{}]",
@@ -219,8 +226,9 @@ pub fn history(ctx: &mut Ctx, p: &HistParams, first: usize, acc: &mut Acc) -> Hi
                                     bad07("a refused call must not cause any traffic".into());
                                 }
                             } else {
-                                if new.len() != 1 || new[0].key != "Reservation" || new[0].val.as_ref() != Some(&expect_reservation(table, &cfg, t)) {
-                                    bad07(format!("expected exactly one Reservation {}", show_req(table, "Reservation", &Some(expect_reservation(table, &cfg, t)))));
+                                let diff = named_fields_differ(table, "Reservation", new.first(), &want_reservation(&cfg, t));
+                                if new.len() != 1 || !diff.is_empty() {
+                                    bad07(format!("expected exactly one Reservation for the configured amount and currency with the token as reference: {}", diff.join("; ")));
                                 }
                                 match chosen.first() {
                                     Some((Xch::Main, Outcome::Ok, Some(r))) => {
@@ -278,11 +286,12 @@ pub fn history(ctx: &mut Ctx, p: &HistParams, first: usize, acc: &mut Acc) -> Hi
                                 closed_once.push(t.clone());
                                 let is_commit = matches!(op, Op::Commit(..));
                                 let (key, want) = match &op {
-                                    Op::Commit(_, a) => ("PartialReversal", expect_partial_reversal(table, &cfg, t, r, *a)),
-                                    _ => ("PreAuthReversal", expect_preauth_reversal(table, &cfg, r)),
+                                    Op::Commit(_, a) => ("PartialReversal", want_partial_reversal(&cfg, t, r, *a)),
+                                    _ => ("PreAuthReversal", vec![("receipt_no", vcore::codec::Val::Int(r))]),
                                 };
-                                if new.is_empty() || new[0].key != key || new[0].val.as_ref() != Some(&want) {
-                                    bad07(format!("must act on exactly this token's receipt: expected first request {key} {}", show_req(table, key, &Some(want.clone()))));
+                                let diff = named_fields_differ(table, key, new.first(), &want);
+                                if !diff.is_empty() {
+                                    bad07(format!("must act on exactly this token's receipt number: {}", diff.join("; ")));
                                 }
                                 match chosen.first() {
                                     Some((Xch::Main, o @ (Outcome::Ok | Outcome::NoStatus), _)) => {
